@@ -182,7 +182,8 @@ fn judge_parse(real: &Real, base: &M, input: &str, out: &Outcome) -> (Verdict, b
 const TOKENS: [&str; 31] = [
     "(", ")", "1", "16777217", "-2147483648", "-1000000000", "+2147483647", "00000000042", "-7", "+5", "2147483648", "1.5", "1e3", "inf", "NaN", "TRUE", "FALSE", "true", "foo", "INTEGER.+", "INT[1,2]", "INT[]", "INT[", "INT[x]", "INT[1,é", "BOOL[1,0]", "BOOL[2]", "BOOL[", "FLOAT[1.5,inf]", "FLOAT[", "é",
 ];
-const CHARS: [char; 11] = ['I', 'N', 'T', '[', ']', '(', ')', ',', '1', ' ', 'é'];
+// U+00A0 (no-break space) and U+000B (vertical tab) are white space, but not ASCII white space
+const CHARS: [char; 13] = ['I', 'N', 'T', '[', ']', '(', ')', ',', '1', ' ', 'é', '\u{a0}', '\u{b}'];
 
 fn run_input(ctx: &mut Ctx, real: &Real, bases: &[(&str, M)], input: &str) {
     for (bl, base) in bases {
@@ -226,6 +227,9 @@ pub fn tokens(ctx: &mut Ctx) {
             run_input(ctx, &real, b, &toks.join(" "));
             if len >= 2 && len <= k - 1 {
                 run_input(ctx, &real, &only_empty, &toks.join("\n\t "));
+                // Unicode white space separates tokens like a blank does
+                run_input(ctx, &real, &only_empty, &toks.join("\u{2003}"));
+                run_input(ctx, &real, &only_empty, &toks.join("\u{a0}\u{b}"));
             }
         }
     }
@@ -285,10 +289,17 @@ fn atoms_exact() -> Vec<Tree> {
         Tree::B(false),
         Tree::name("A"),
         Tree::name("x1"),
+        // near-miss spellings of literals and instructions are names
+        Tree::name("true"),
+        Tree::name("False"),
+        Tree::name("integer.+"),
         Tree::ins("INTEGER.+"),
         Tree::ins("NOOP"),
         Tree::ins("CODE.QUOTE"),
     ]
+}
+fn atoms_float_near() -> Vec<Tree> {
+    crate::alpha::near_floats().into_iter().map(Tree::F).collect()
 }
 fn atoms_float() -> Vec<Tree> {
     vec![
@@ -347,6 +358,9 @@ pub fn roundtrip(ctx: &mut Ctx, floats: bool) {
     let mut real = Real::new();
     let s = if ctx.tier_thorough { 5 } else { 4 };
     let mut trees = trees_up_to(s, &if floats { atoms_float() } else { atoms_exact() });
+    if floats {
+        trees.extend(trees_up_to(3, &atoms_float_near()));
+    }
     // wide lists (direct element counts around 10, 16, 32, 100), also nested
     for n in [9usize, 10, 11, 12, 16, 17, 33, 100, 101] {
         let leaf = |k: usize| if floats { Tree::F(k as f32 + 0.5) } else { Tree::I(k as i32) };
